@@ -3,6 +3,7 @@
   Runs the executable definitions of Model/ and Spec/ (the very definitions the theorems are about).
 -/
 import Driver.Wire
+import Driver.Good
 import Model.Parse
 import Model.Binary
 import Model.Canon
@@ -243,6 +244,13 @@ def handle (j : Json) : String :=
           match Resolve.readR FUEL wenv renv (ropts j) w r bytes with
           | .error e => errOut e
           | .ok (v, rest) => "{\"ok\":" ++ ofVal v ++ ",\"rest\":" ++ toString rest.length ++ "}"
+  | "c08.hyp" =>
+    match parseReq j "writer" with
+    | .error e => "{\"perr\":\"" ++ e.name ++ "\"}"
+    | .ok (w, wenv) =>
+      match Parse.parseTop FUEL (getV j "reader") [] with
+      | .error e => "{\"rperr\":\"" ++ e.name ++ "\"}"
+      | .ok (r, renv) => "{\"fails\":" ++ jsonStr (GoodB.hypothesis wenv renv w r) ++ "}"
   | "spec.resolve" =>
     match parseReq j "writer" with
     | .error e => "{\"perr\":\"" ++ e.name ++ "\"}"
